@@ -30,6 +30,30 @@ class RomUndefined(Exception):
     derived from has one: the transformation lost ROM contents or its padding flag."""
 
 
+class PlantedAssertion(Exception):
+    """The exception object handed to pyrtl.rtl_assert by the harness (fault
+    'assertion_fired_and_caught': the caller catches it and keeps stepping)."""
+
+
+class RomHole(Exception):
+    """The reference model read a ROM address for which the design's romdata defines no word
+    (pad_with_zeros=False): PyRTL rejects such a step with PyrtlError; it is not a cycle."""
+
+
+class Inconclusive(Exception):
+    """The run left the domain in which the oracle can judge (e.g. a simulator accepted a step
+    that lacked an input value, so what it simulated is unknown). Not a violation, not a
+    harness error: the run ends unjudged and is counted under the probe 'inconclusive'."""
+
+
+class ReplicaViolation(Exception):
+    """Carries a Violation out of Replica.advance."""
+
+    def __init__(self, violation):
+        Exception.__init__(self, violation.cls)
+        self.violation = violation
+
+
 class RunTimeout(Exception):
     """Raised by the SIGALRM handler (lives here, not in worker.py, because `python -m
     verifsim.worker` loads worker.py as __main__ and a second import would define a second,
